@@ -80,8 +80,11 @@ def _int_value(draw):
     return draw(st.integers(-10 ** 30, 10 ** 30))
 
 
+_INTEGERS = st.one_of(st.sampled_from(BOUNDARY['integer']), _int_value().map(str)).map(lambda s: ['integer', s])
+
+
 def integers():
-    return st.one_of(st.sampled_from(BOUNDARY['integer']), _int_value().map(str)).map(lambda s: ['integer', s])
+    return _INTEGERS
 
 
 @st.composite
@@ -106,8 +109,12 @@ def _dec_lex(draw):
     return ('-' if neg else '') + body
 
 
+_DEC_LEX = _dec_lex()
+_DECIMALS = st.one_of(st.sampled_from(BOUNDARY['decimal']), _DEC_LEX).map(lambda s: ['decimal', s])
+
+
 def decimals():
-    return st.one_of(st.sampled_from(BOUNDARY['decimal']), _dec_lex()).map(lambda s: ['decimal', s])
+    return _DECIMALS
 
 
 def _dyadic_lex(bits):
@@ -135,27 +142,33 @@ _DBL_SPECIAL = ['INF', '-INF', 'NaN', '-0', '0', '0.1', '-0.1', '1.0E21', '1.0E-
 _FLT_SPECIAL = ['INF', '-INF', 'NaN', '-0', '0', _F32_TENTH, _F32_THIRD, _F32_MAX, '16777216', '8388607.5', '8388606.5']
 
 
+_DYADIC53, _DYADIC24 = _dyadic_lex(53), _dyadic_lex(24)
+_DOUBLES = st.one_of(st.sampled_from(BOUNDARY['double']), st.sampled_from(_DBL_SPECIAL), _DYADIC53,
+                     _DYADIC53).map(lambda s: ['double', s])
+_FLOATS = st.one_of(st.sampled_from(BOUNDARY['float']), st.sampled_from(_FLT_SPECIAL), _DYADIC24,
+                    _DYADIC24).map(lambda s: ['float', s])
+_UNTYPED_NUM = st.one_of(_small.map(str), _DEC_LEX, _DYADIC53,
+                         st.sampled_from(['INF', '-INF', 'NaN', ' 7 ', '1e2', '-0', '+3'])).map(lambda s: ['untypedAtomic', s])
+
+
 def doubles():
-    return st.one_of(st.sampled_from(BOUNDARY['double']), st.sampled_from(_DBL_SPECIAL), _dyadic_lex(53),
-                     _dyadic_lex(53)).map(lambda s: ['double', s])
+    return _DOUBLES
 
 
 def floats():
-    return st.one_of(st.sampled_from(BOUNDARY['float']), st.sampled_from(_FLT_SPECIAL), _dyadic_lex(24),
-                     _dyadic_lex(24)).map(lambda s: ['float', s])
+    return _FLOATS
 
 
 def untyped_numeric():
     """xs:untypedAtomic with a numeric-looking lexical (cast to xs:double by the arithmetic operators)."""
-    return st.one_of(_small.map(str), _dec_lex(), _dyadic_lex(53), st.sampled_from(['INF', '-INF', 'NaN', ' 7 ', '1e2', '-0', '+3']))\
-        .map(lambda s: ['untypedAtomic', s])
+    return _UNTYPED_NUM
 
 
-_BY_TYPE = {'integer': integers, 'decimal': decimals, 'double': doubles, 'float': floats, 'untypedAtomic': untyped_numeric}
+_BY_TYPE = {'integer': _INTEGERS, 'decimal': _DECIMALS, 'double': _DOUBLES, 'float': _FLOATS, 'untypedAtomic': _UNTYPED_NUM}
 
 
 def numeric(types=NUMERIC_TYPES):
-    return st.sampled_from(list(types)).flatmap(lambda t: _BY_TYPE[t]())
+    return st.one_of([_BY_TYPE[t] for t in types])
 
 
 def lexical_for(typ: str, q: Fraction) -> str | None:
@@ -185,7 +198,7 @@ def numeric_pair(draw, types=NUMERIC_TYPES + ('untypedAtomic',)):
     a = q*b + small) so that exact quotients and zero remainders of every sign combination are frequent."""
     ta = draw(st.sampled_from(list(types)))
     tb = draw(st.sampled_from(list(types)))
-    b = draw(_BY_TYPE[tb]())
+    b = draw(_BY_TYPE[tb])
     k = draw(st.integers(0, 19))
     if k < 7:
         try:
@@ -201,7 +214,7 @@ def numeric_pair(draw, types=NUMERIC_TYPES + ('untypedAtomic',)):
             lex = lexical_for(ta, qa)
             if lex is not None:
                 return [[ta, lex], b]
-    return [draw(_BY_TYPE[ta]()), b]
+    return [draw(_BY_TYPE[ta]), b]
 
 
 # --------------------------------------------------------------------------
@@ -266,3 +279,81 @@ def pyvalue(atom):
 
 def refvalue(atom):
     return N.make(atom[0], atom[1])
+
+
+# --------------------------------------------------------------------------
+# non-numeric atomic types (C07 ...): small hand-chosen pools with related values
+# --------------------------------------------------------------------------
+POOLS = {
+    'string': ['', 'a', 'b', 'A', 'abc', 'ab', '1', '1.0', '10', '9', ' 1', 'true', 'false', '\u00e9', 'e\u0301',
+               '\ufffd', '\U0001f600', 'NaN', '0', 'http://x/a', "it's"],
+    'untypedAtomic': ['1', '1.0', '01', '10', '9', 'abc', '', 'true', 'false', '0', '2000-01-01', '2000-01-01Z', 'P1Y', 'P1D',
+                      'NaN', 'INF', '1e0', ' 1 ', '0a', 'a', 'p:a', '12:00:00Z', '2000-01-01T00:00:00Z', 'Cg=='],
+    'boolean': ['true', 'false', '1', '0'],
+    'anyURI': ['', 'a', 'abc', 'http://x/a', 'http://x/b', '1'],
+    'QName': ['p:a', 'p2:a', 'q:a', 'a', 'p:b', 'b'],
+    'dateTime': ['2000-01-01T00:00:00', '2000-01-01T00:00:00Z', '1999-12-31T24:00:00', '2000-01-01T05:00:00+05:00',
+                 '2000-12-31T23:00:00-05:00', '2001-01-01T00:00:00+05:00', '2000-01-01T00:00:00.5', '2000-02-29T12:00:00Z',
+                 '1972-12-31T00:00:00-14:00', '2000-01-01T00:00:00-05:00', '1999-12-31T19:00:00-05:00', '2000-01-01T12:00:00'],
+    'date': ['2000-01-01', '2000-01-01Z', '2000-01-01+14:00', '1999-12-31-10:00', '2000-01-02', '2004-12-25-12:00',
+             '2004-12-26+12:00', '2000-01-01-05:00', '1999-12-31'],
+    'time': ['00:00:00', '24:00:00', '12:00:00Z', '13:00:00+01:00', '23:59:59.999', '08:00:00+09:00', '17:00:00-06:00',
+             '12:00:00', '07:00:00-05:00'],
+    'gYear': ['2000', '2000Z', '2001', '2000+05:00', '2000-05:00'],
+    'gYearMonth': ['2000-01', '2000-01Z', '2000-02', '2000-01-05:00'],
+    'gMonth': ['--01', '--12', '--12Z', '--12-05:00'],
+    'gMonthDay': ['--12-25', '--12-25Z', '--02-29', '--12-25-05:00', '--12-26+10:00', '--12-25-14:00'],
+    'gDay': ['---01', '---31', '---31Z', '---31-05:00'],
+    'duration': ['P1Y', 'P12M', 'P1Y1D', 'P365D', 'PT0S', 'P0M', '-P1Y', 'P1M', 'P30D', 'P1D', 'PT24H'],
+    'yearMonthDuration': ['P1Y', 'P12M', 'P13M', '-P1M', 'P0M', 'P1M'],
+    'dayTimeDuration': ['P1D', 'PT24H', 'PT86400S', 'PT0S', '-PT1S', 'PT0.5S', 'P10D', 'PT240H', 'P30D', 'P365D'],
+    'hexBinary': ['', '00', '0a', '0A', '0aFF', 'ff', '0b'],
+    'base64Binary': ['', 'AA==', 'Cg==', 'Cv8=', '/w==', 'Cw=='],
+}
+NAMESPACES = {'p': 'urn:p', 'q': 'urn:q', 'p2': 'urn:p', 'xs': 'http://www.w3.org/2001/XMLSchema'}
+ATOMIC_TYPES = NUMERIC_TYPES + tuple(POOLS)
+
+_NUM_SMALL = {
+    'integer': ['0', '1', '-1', '2', '10', '9', '9007199254740993', '9007199254740992'],
+    'decimal': ['0.0', '1.0', '-1.0', '0.1', '1.5', '10.0', '9007199254740993.0', '0.5'],
+    'double': ['0', '-0', '1', '-1', '0.1', '1.5', 'NaN', 'INF', '-INF', '9007199254740992', '1.00000001', '0.5', '10'],
+    'float': ['0', '-0', '1', '-1', '1.5', 'NaN', 'INF', '-INF', _F32_TENTH, '16777216', '0.5', '10'],
+}
+
+
+def atom_of(typ: str):
+    """strategy of atoms of one type: pools for the non-numeric types, pools + generated values for numerics"""
+    if typ in POOLS:
+        return st.sampled_from(POOLS[typ]).map(lambda s: [typ, s])
+    return st.one_of(st.sampled_from(_NUM_SMALL[typ]).map(lambda s: [typ, s]), _BY_TYPE[typ])
+
+
+def pool_of(typ: str):
+    """finite list of atoms of one type (type matrices)"""
+    return [[typ, s] for s in (POOLS[typ] if typ in POOLS else _NUM_SMALL[typ])]
+
+
+_ANY_ATOM = st.sampled_from(ATOMIC_TYPES).flatmap(atom_of)
+
+
+def any_atom():
+    return _ANY_ATOM
+
+
+def xpath_of(atom) -> str:
+    """XPath text of a typed atom: string literal, true()/false(), numeric literal where one exists, else a
+    constructor call (xs:QName needs the NAMESPACES in the static context)."""
+    t, lex = atom
+    if t == 'string':
+        return "'" + lex.replace("'", "''") + "'"
+    if t == 'boolean' and lex in ('true', 'false'):
+        return lex + '()'
+    if t in ('integer', 'decimal', 'double'):
+        s = literal(atom)
+        if s is not None:
+            return s
+    return f"xs:{t}('" + lex.replace("'", "''") + "')"
+
+
+def sequence_of(atoms) -> str:
+    return '(' + ', '.join(xpath_of(a) for a in atoms) + ')'
